@@ -44,14 +44,26 @@ Proof. exact once_spec. Qed.
 Print Assumptions C09_once_spec.
 
 (* findall(T,G,L): when G's enumeration ends without error with answer states xs, the answers are those
-   of unifying L with the list of the instances of T under each xs_i, in order, computed from the store
-   of the call: no binding made by G survives; and there is at most one answer *)
+   of unifying L with the list of the collected instances of T - one per answer, in order - computed from
+   the store of the call: no binding made by G survives *)
 Theorem C09_findall_spec : forall call t g l s xs,
   call_goal call g [] s = (xs, false) ->
   builtin call (s_ "findall") [t; g; l] s =
-  Some (unify_st {| sto := sto s; nxt := max_nxt s xs |} l (mk_list (map (fun x => den_fast (sto x) t) xs))).
+  Some (let '(es, b) := collect (nxt s) (max_nxt s xs) t xs in unify_st {| sto := sto s; nxt := b |} l (mk_list es)).
 Proof. exact findall_spec. Qed.
 Print Assumptions C09_findall_spec.
+
+Theorem C09_findall_one_instance_per_answer : forall lo t xs base, length (fst (collect lo base t xs)) = length xs.
+Proof. exact collect_length. Qed.
+Print Assumptions C09_findall_one_instance_per_answer.
+
+(* the collected instances are the instances of T under each answer, in order; only variables that were
+   created while the answer was computed (cells >= lo) are renamed, to fresh ones *)
+Theorem C09_findall_instances : forall lo t xs base,
+  (forall x, In x xs -> forall v, occurs v (den_fast (sto x) t) = true -> v < lo) ->
+  fst (collect lo base t xs) = map (fun x => den_fast (sto x) t) xs.
+Proof. exact collect_older. Qed.
+Print Assumptions C09_findall_instances.
 
 Theorem C09_findall_at_most_once : forall call t g l s r,
   builtin call (s_ "findall") [t; g; l] s = Some r -> length (fst r) <= 1.
